@@ -491,6 +491,25 @@ def method_call(obj_regex, method, build, name=None, min_count=0):
     return rule
 
 
+def _chain_end(body, pos):
+    """pos is at `if constexpr (`; returns the index after the whole if / else-if / else chain."""
+    m = re.compile(r'if\s+constexpr\s*\(').match(body, pos)
+    if not m:
+        raise ExtractionBroken("malformed else-if chain")
+    cp = match_close(body, m.end() - 1, '(', ')')
+    mo = re.compile(r'\s*\{').match(body, cp + 1)
+    if not mo:
+        raise ExtractionBroken("if constexpr without block")
+    end = match_close(body, mo.end() - 1) + 1
+    me = re.compile(r'\s*else\s*\{').match(body, end)
+    mei = re.compile(r'\s*else\s+(?=if\s+constexpr\s*\()').match(body, end)
+    if me:
+        return match_close(body, me.end() - 1) + 1
+    if mei:
+        return _chain_end(body, mei.end())
+    return end
+
+
 def eval_if_constexpr(cond_eval, min_count=0):
     """Partial evaluation of `if constexpr (C) {A} [else {B}]` for one
     configuration: cond_eval(normalised C) -> True / False (unknown conditions
@@ -520,11 +539,17 @@ def eval_if_constexpr(cond_eval, min_count=0):
             end = cb + 1
             else_txt = ''
             me = re.compile(r'\s*else\s*\{').match(body, end)
+            mei = re.compile(r'\s*else\s+(?=if\s+constexpr\s*\()').match(body, end)
             if me:
                 eob = me.end() - 1
                 ecb = match_close(body, eob)
                 else_txt = body[eob:ecb + 1]
                 end = ecb + 1
+            elif mei:
+                # else if constexpr (...) {...} [else ...]: the else branch is the rest of the chain
+                cend = _chain_end(body, mei.end())
+                else_txt = '{' + body[mei.end():cend] + '}'
+                end = cend
             elif re.compile(r'\s*else\b').match(body, end):
                 raise ExtractionBroken("if constexpr ... else without block in %s" % ex.where())
             keep = then_txt if val else (else_txt or '{ }')
